@@ -210,6 +210,87 @@ async fn cookie_case(server: SocketAddr, spec_secret: &str, expiry: u64, age: i6
 }
 
 
+/// No secret configured (the default): the application started from such a configuration issues no
+/// authentication cookie, asks for none, and a cookie a client presents anyway - under whatever key -
+/// does not spare it the authentication.
+async fn no_secret_family(report: &mut Report) {
+    let port = tcp::free_port();
+    let addr: SocketAddr = format!("127.0.0.1:{port}").parse().expect("addr");
+    let config = Config {
+        address: addr.to_string(),
+        timeout: 4,
+        auth_secret: None,
+        adapters: Adapters {
+            discovery: DiscoveryAdapter::Fixed(FixedDiscovery { targets: vec![Target { identifier: "only".into(), address: "10.9.8.7:25565".parse().expect("addr"), meta: Default::default() }] }),
+            authentication: AuthenticationAdapter::Fixed(FixedAuthentication { profile: Profile { id: uuid::Uuid::from_u128(77), name: "FixedUser".into(), properties: vec![], profile_actions: vec![] } }),
+            ..Default::default()
+        },
+        ..Default::default()
+    };
+    std::thread::spawn(move || {
+        let rt = tokio::runtime::Builder::new_multi_thread().worker_threads(2).enable_all().build().expect("runtime");
+        let _ = rt.block_on(passage::start(config));
+    });
+    tcp::wait_listening(addr, Duration::from_secs(10)).await;
+    // 1. a fresh login: routed, and given no authentication cookie
+    let Ok(end) = TcpEnd::connect(addr, None).await else {
+        report.inconclusive("no secret: connect failed");
+        return;
+    };
+    let claimed = Ident { name: "NoSecret".into(), uuid: 0x5ec };
+    let log = Client::new(&end, scripts::plan(scripts::login_script(2, "limits.example.org", 25565, &claimed, "en_us"), false, [6u8; 16], Duration::from_secs(6))).run().await;
+    end.kill();
+    let issued: Vec<Vec<u8>> = log.all("StoreCookie").into_iter().filter_map(|r| match &r.pkt { Ok(Pkt::StoreCookie { key, payload }) if key == AUTH_KEY => Some(payload.clone()), _ => None }).collect();
+    report.eval(Some("no-secret/fresh-login"));
+    report.count("logins against an application without a configured secret", 1);
+    let detail = json!({"clientbound": log.names(), "authentication_cookies_stored": issued.len()});
+    report.sample(json!({"case": "no secret configured: fresh login", "observed": detail}));
+    if log.count("Transfer") == 0 {
+        report.inconclusive(&format!("no secret: the fresh login was not routed ({:?})", log.names()));
+    }
+    if !issued.is_empty() {
+        report.violation("no-secret/auth-cookie-issued", "an application started without a configured secret issued an authentication cookie", detail);
+    }
+    // 2. a transfer-intent connection presenting a cookie: whatever was just issued, one under the empty key, one under a guess
+    let now = std::time::SystemTime::now().duration_since(std::time::UNIX_EPOCH).map(|d| d.as_secs()).unwrap_or(0);
+    let mut presented: Vec<(&str, Vec<u8>)> = vec![];
+    if let Some(c) = issued.first() {
+        presented.push(("the-cookie-just-issued", c.clone()));
+    }
+    for (name, key) in [("signed-with-the-empty-key", &b""[..]), ("signed-with-a-guess", &b"passage"[..])] {
+        let body = serde_json::to_vec(&json!({"timestamp": now, "client_addr": "127.0.0.1:40000", "user_name": "cookie_nosecret", "user_id": scripts::uuid_string(0xc00c1e), "target": null, "profile_properties": [], "extra": {}})).expect("json");
+        presented.push((name, sign_cookie(key, &body)));
+    }
+    for (name, cookie) in presented {
+        let Ok(end) = TcpEnd::connect(addr, None).await else { continue };
+        let mut plan = scripts::plan(
+            vec![
+                scripts::send("Handshake", scripts::handshake(3, "limits.example.org", 25565, 770)),
+                scripts::send("LoginStart", Pkt::LoginStart { name: "Claimed".into(), uuid: 5 }),
+                Act::AwaitPkt { name: "EncryptionRequest", nth: 1 },
+                Act::Close,
+                Act::AwaitClose,
+            ],
+            false,
+            [7u8; 16],
+            Duration::from_secs(5),
+        );
+        plan.cookies = vec![(AUTH_KEY.to_string(), Some(cookie))];
+        let log = Client::new(&end, plan).run().await;
+        end.kill();
+        let flag = log.enc_request.as_ref().map(|e| e.2);
+        report.eval(Some(&format!("no-secret/cookie-presented/{name}")));
+        report.count("should-authenticate flags read", 1);
+        let asked = log.all("LoginCookieRequest").len();
+        let detail = json!({"cookie": name, "should_authenticate": flag, "cookie_requests": asked, "clientbound": log.names()});
+        match flag {
+            Some(false) => report.violation(&format!("no-secret/cookie-accepted/{name}"), "an application started without a configured secret accepted an authentication cookie (the client was not told to authenticate)", detail),
+            None => report.inconclusive(&format!("no secret/{name}: the connection ended before the Encryption Request")),
+            _ => {}
+        }
+    }
+}
+
 /// The secret file holds bytes, not necessarily text (`openssl rand 32 > auth_secret`, a Kubernetes
 /// secret made from binary data). Either the application refuses to start with such a file, or the
 /// file's bytes are the key: a cookie under exactly those bytes is accepted, and a cookie made by a
@@ -610,6 +691,9 @@ pub async fn run(cli: &Cli, report: &mut Report) {
     report.set("worst_scheduler_lateness_ms", json!(worst.as_millis() as u64));
     if cli.prop == "C14" {
         binary_secret_file_family(report).await;
+    }
+    if matches!(cli.prop.as_str(), "C14" | "C02" | "C10") {
+        no_secret_family(report).await;
     }
 }
 
